@@ -47,7 +47,21 @@ def o_harmonic(a):
             return False, dict(order=list(o), result=[float(F), float(m), float(d)])
         err = max(abs(F - F0), abs(F * m * math.cos(2 * d) - Q0), abs(F * m * math.sin(2 * d) - U0))
         worst = max(worst, float(err))
-    return worst < 1e-9 * max(1., F0), dict(max_err=worst, orders=len(orders))
+    # the same components as arrays over a grid of energies (flux, degree and angle per energy), combined in every order one after the other in the
+    # same process with the same array objects: each order gives the Stokes sum, and the inputs are left as they were
+    k = 5
+    scale = numpy.linspace(0.5, 2., k)
+    arrs = [(c[0] * scale, numpy.full(k, c[1]), numpy.full(k, c[2])) for c in comps]
+    keep = [tuple(x.copy() for x in c) for c in arrs]
+    worst_arr, touched = 0., False
+    for o in orders[:6]:
+        F, m, d = harmonic_addition(*[arrs[i] for i in o])
+        F, m, d = (numpy.asarray(x, dtype=float) for x in (F, m, d))
+        err = numpy.max([numpy.abs(F - F0 * scale).max(), numpy.abs(F * m * numpy.cos(2 * d) - Q0 * scale).max(), numpy.abs(F * m * numpy.sin(2 * d) - U0 * scale).max()])
+        worst_arr = max(worst_arr, float(err))
+        touched = touched or any(not numpy.array_equal(x, y) for c, c0 in zip(arrs, keep) for x, y in zip(c, c0))
+    ok = worst < 1e-9 * max(1., F0) and worst_arr < 1e-9 * max(1., 2. * F0) and not touched
+    return ok, dict(max_err=worst, max_err_arrays=worst_arr, input_arrays_modified=touched, orders=len(orders))
 
 
 def o_component(a):
